@@ -1,4 +1,4 @@
 """C12 — no expired entry is ever served (TTL, per-item TTL, TTI, stale window)."""
 from props import cachelib
 def run(ctx):
-    cachelib.run(ctx, "C12", [("ttl", 6), ("register", 1), ("iter", 1)], 3600, 90000)
+    cachelib.run(ctx, "C12", [("ttl", 6), ("register", 1), ("iter", 1)], 3600, 60000)
